@@ -37,6 +37,11 @@ def gen_world(rng, i, tier):
     return w
 
 
+def option_expressible(read):
+    """can the two directories be written as a PARSING_DIRS item?  (':' and ';' are the separators there)"""
+    return not any(ch in (read.get("usr") or "") + (read.get("etc") or "") for ch in ":;")
+
+
 def build_plans(world):
     read = world["read"]
     ops = gen.prologue_ops(read)
@@ -52,7 +57,7 @@ def build_plans(world):
         ops.append({"op": "dump", "k": 0, "ext": False, "tag": "d_dirs"})
         ops.append(dict(gen.read_op(read, o=1, cb={}), tag="r_dirs_cb"))
         ops.append({"op": "dump", "k": 1, "ext": False, "tag": "d_dirs_cb"})
-        for slot, cb, tag in ((2, None, "config"), (3, {}, "config_cb")):
+        for slot, cb, tag in ((2, None, "config"), (3, {}, "config_cb")) if option_expressible(read) else ():
             op = {"op": "readConfig", "in": slot, "o": slot, "project": None, "usr_subdir": None, "name": read["name"], "suffix": read.get("suffix"),
                   "delim": read["delim"], "comment": read["comment"], "tag": "r_" + tag}
             if cb is not None:
@@ -102,6 +107,9 @@ def check(world, plans, results):
         return v
     model = gen.model_of(world)
     tags = ["dirs", "dirs_cb", "config", "config_cb"] if read["ep"] == "readDirs" else ["config", "config_cb"]
+    if read["ep"] == "readDirs" and not option_expressible(read):
+        tags = ["dirs", "dirs_cb"]
+        v.probe("directory_argument_with_separator_characters")
     rcs = {t: tagged(plan, res, "r_" + t)["rc"] for t in tags}
     dumps = {t: tagged(plan, res, "d_" + t) for t in tags}
     if len(set(rcs.values())) != 1:
